@@ -783,11 +783,26 @@ func (r *RegisteredDecoys) getExpiredRegistrations() []string {
 	return expiredRegTimeoutIndices
 }
 
+// expired reports whether a timeout record has outlived the lifetime of its state (same rule as
+// getExpiredRegistrations). Callers must hold r.m.
+func (r *RegisteredDecoys) expired(regTimeout *DecoyTimeout) bool {
+	if regTimeout.status == regStatusUnused && time.Since(regTimeout.registrationTime) > r.timeoutUnused {
+		return true
+	}
+	return time.Since(regTimeout.registrationTime) > r.timeoutActive
+}
+
 func (r *RegisteredDecoys) removeRegistration(index string) *regExpireLogMsg {
 	r.m.Lock()
 	defer r.m.Unlock()
 
 	expiredReg := r.decoysTimeouts[index]
+	if expiredReg == nil || !r.expired(expiredReg) {
+		// The record was scanned as expired without this lock held. Since then it may have been
+		// removed, or a connection may have marked the registration as used, which extends its
+		// lifetime: re-check before forgetting it.
+		return nil
+	}
 	expiredRegObj, ok := r.decoys[expiredReg.decoy][expiredReg.identifier]
 	if !ok {
 		return nil
